@@ -4,7 +4,7 @@
    (tokenizer model exhaustively on short strings, grammar-derived descriptions with an independent denotation). *)
 From Coq Require Import String.
 From CP Require Import Model.Base Generated.Consts Model.Ranges Model.Lex Model.RangeParse Model.Dec Model.DecRange Proofs.RangeProofs
-  Proofs.RangeParseProofs Proofs.RangeTextProofs.
+  Proofs.RangeParseProofs Proofs.RangeTextProofs Proofs.DecRangeParseProofs.
 Local Open Scope Z_scope.
 
 (* a value is accepted iff it lies inside at least one item, both limits inclusive, an omitted limit = unbounded *)
@@ -65,6 +65,20 @@ Theorem written_description_accepts_exactly_what_it_describes : forall d v, d <>
   exists r, range_of_text (desc_text sep_text d) = POk r /\
             (range_validate r v = true <-> exists it, In it d /\ inside (sitem_den it) v).
 Proof. exact written_description_accepts_exactly. Qed.
+
+(* the same for decimal ranges: the token loop of DecimalRange.__init__ maps every grammar description (limits are NUMBER
+   tokens in any decimal spelling, optionally behind a minus sign) to its items, and reports precision = the most digits
+   written after a dot and scale = that plus the most digits written before it *)
+Theorem decimal_token_loop_maps_grammar_to_denotation : forall d its, d <> [] -> map dgitem_den d = map Some its -> dno_overlap [] its ->
+  dparse (ddesc_tokens d) dstate0 (0, 0) [] (DEFAULT_SCALE, DEFAULT_PRECISION) =
+  let st := desc_stats d (0, 0) in DOk (Some its) (snd st + fst st) (fst st).
+Proof. exact dec_token_loop_denotes. Qed.
+Example decimal_grammar_example :
+  let d := [DGClosed (DMinus (T KNumber (txt "1.50"))) (T KOp [58%N]) (DPlain (T KNumber (txt "299.995"))); DGFrom (DPlain (T KNumber (txt "1e3"))) (T KOp [58%N])] in
+  tokenize_without_space (ellipsis_to_colon (replace_dots (txt "-1.50...299.995, 1e3:")) None false) = LOk (ddesc_tokens d)
+  /\ decrange_of_text (txt "-1.50...299.995, 1e3:") =
+     DOk (Some [(Some (mkdec (true, 150%N, -2)), Some (mkdec (false, 299995%N, -3))); (Some (mkdec (false, 1%N, 3)), None)]) 7 3.
+Proof. split; vm_compute; reflexivity. Qed.
 
 (* non-vacuity of the grammar: the tokenizer model splits a description with every kind of limit spelling into exactly
    the token sequence of a grammar description, whose items have the expected denotations *)
